@@ -1165,6 +1165,125 @@ theorem visD_completed (exro : Bool) :
     | false => rfl
     | true => simp only [if_true, Option.isSome_map]; exact P
 
+/-! #### … and the value handed on is the completed value -/
+
+theorem mapOpt_value (f : V → Option V) (g : V → V) (xs ys : List V)
+    (h : ∀ x ∈ xs, ∀ y, f x = some y → y = g x) (hm : mapOpt f xs = some ys) : ys = xs.map g := by
+  induction xs generalizing ys with
+  | nil => unfold mapOpt at hm; cases hm; rfl
+  | cons x r ih =>
+    unfold mapOpt at hm
+    cases hx : f x with
+    | none => simp [hx] at hm
+    | some y =>
+      cases hr : mapOpt f r with
+      | none => simp [hx, hr] at hm
+      | some zs =>
+        simp only [hx, hr, Option.bind_some, Option.map_some, Option.some.injEq] at hm
+        rw [← hm, h x (by simp) y hx, ih zs (fun a ha => h a (by simp [ha])) hr]
+        rfl
+
+theorem visProps_value (exro : Bool) (props : List (Str × RS))
+    (h : ∀ kp ∈ props, ∀ x x', visD true exro kp.2 x = some x' → x' = complete exro kp.2 x) :
+    ∀ kvs kvs', visProps true exro props kvs = some kvs' → kvs' = completeProps exro props kvs := by
+  induction props with
+  | nil => intro kvs kvs' hv; unfold visProps at hv; cases hv; rfl
+  | cons e r ih =>
+    obtain ⟨k, p⟩ := e
+    intro kvs kvs' hv
+    unfold visProps at hv
+    unfold completeProps completeStep
+    cases hl : lookup k kvs with
+    | none =>
+      rw [propStep_none k _ kvs hl] at hv
+      simp only [Option.bind_some] at hv
+      exact ih (fun kp hkp => h kp (by simp [hkp])) kvs kvs' hv
+    | some x =>
+      rw [propStep_some k _ kvs x hl] at hv
+      cases hx : visD true exro p x with
+      | none => simp [hx] at hv
+      | some x' =>
+        simp only [hx, Option.map_some, Option.bind_some] at hv
+        have := h (k, p) (by simp) x x' hx
+        simp only at this
+        rw [this] at hv
+        exact ih (fun kp hkp => h kp (by simp [hkp])) _ kvs' hv
+
+/-- composition-free schemas: when the validator with `DefaultsSet` accepts, the value it hands on (the one that
+is re-encoded for the next handler) is exactly the completed value -/
+theorem visD_value_compFree (exro : Bool) :
+    ∀ s, compFree s = true → ∀ v v', visD true exro s v = some v' → v' = complete exro s v := by
+  apply rs_induct_full
+  intro t n r w ml mx props req a items nt oneOf anyOf allOf dflt hp hi _ _ _ _ hcf v v' hv
+  unfold compFree at hcf
+  simp only [Bool.and_eq_true, Option.isNone_iff_eq_none, List.isEmpty_iff] at hcf
+  obtain ⟨⟨⟨⟨⟨e1, e2⟩, e3⟩, e4⟩, cfp⟩, cfi⟩ := hcf
+  subst e1 e2 e3 e4
+  rw [visD_compFree] at hv
+  have scal : ∀ u : V, (match u with | .obj _ => False | .arr _ => False | _ => True) →
+      complete exro (RS.mk t n r w ml mx props req a items none [] [] [] dflt) u = u := by
+    intro u hu; cases u <;> first | rfl | cases hu
+  by_cases h1 : (v.isNull && n) = true
+  · simp only [h1, ↓reduceIte, Option.some.injEq] at hv
+    have : v = .null := by cases v <;> simp_all [V.isNull]
+    subst this; rw [← hv]; rfl
+  by_cases h2 : isEmptyLeaf (RS.mk t n r w ml mx props req a items none [] [] [] dflt) = true
+  · simp only [h1, h2, Bool.false_eq_true, ↓reduceIte] at hv
+    have e := emptyLeaf_of _ h2
+    have ep := e.props; have ei := e.items
+    simp only [RS.props, RS.items] at ep ei
+    subst ep ei
+    cases hnl : v.isNull with
+    | true => simp [hnl] at hv
+    | false =>
+      simp only [hnl, Bool.false_eq_true, if_false, Option.some.injEq] at hv
+      rw [← hv]
+      cases v <;> rfl
+  simp only [h1, h2, Bool.false_eq_true, ↓reduceIte] at hv
+  cases v with
+  | null => simp only [ownK, guardV] at hv; split at hv <;> (cases hv; try rfl)
+  | bool b => simp only [ownK, guardV] at hv; split at hv <;> (cases hv; try rfl)
+  | int k => simp only [ownK, guardV] at hv; split at hv <;> (cases hv; try rfl)
+  | half k => simp only [ownK, guardV] at hv; split at hv <;> (cases hv; try rfl)
+  | str s => simp only [ownK, guardV] at hv; split at hv <;> (cases hv; try rfl)
+  | arr xs =>
+    have ec : complete exro (RS.mk t n r w ml mx props req a items none [] [] [] dflt) (.arr xs) =
+        .arr (completeItems exro items xs) := rfl
+    have e : ownK true exro (RS.mk t n r w ml mx props req a items none [] [] [] dflt)
+        (visProps true exro props) (visItems true exro items) (.arr xs) =
+        if permits t .array then (visItems true exro items xs).map .arr else none := rfl
+    rw [e] at hv
+    rw [ec]
+    cases hpm : permits t .array with
+    | false => simp [hpm] at hv
+    | true =>
+      simp only [hpm, if_true] at hv
+      cases items with
+      | none => simp only [visItems, Option.map_some, Option.some.injEq] at hv; rw [← hv]; rfl
+      | some it =>
+        unfold visItems at hv
+        cases hm : mapOpt (visD true exro it) xs with
+        | none => simp [hm] at hv
+        | some ys =>
+          simp only [hm, Option.map_some, Option.some.injEq] at hv
+          rw [← hv, mapOpt_value _ (complete exro it) xs ys
+            (fun x _ y hy => hi it rfl (by simpa [compFreeO] using cfi) x y hy) hm]
+          rfl
+  | obj kvs =>
+    have ec : complete exro (RS.mk t n r w ml mx props req a items none [] [] [] dflt) (.obj kvs) =
+        .obj (completeProps exro props (inject exro props kvs)) := rfl
+    rw [ec]
+    simp only [ownK, injD, if_true, RS.props] at hv
+    split at hv
+    · cases hm : visProps true exro props (inject exro props kvs) with
+      | none => rw [hm] at hv; cases hv
+      | some kvs' =>
+        rw [hm] at hv
+        simp only [Option.map_some, Option.some.injEq] at hv
+        rw [← hv, visProps_value exro props
+          (fun kp hkp x x' hx => hp kp hkp (compFreeP_mem props cfp kp hkp) x x' hx) _ kvs' hm]
+    · cases hv
+
 /-! #### the completed value is well-formed -/
 
 theorem wfKV_iff (kvs : List (Str × V)) : V.wfKV kvs = true ↔ ∀ kv ∈ kvs, kv.2.wf = true := by
@@ -1374,17 +1493,14 @@ theorem validateRequestBodyD_eq (reg : List (Str × DecK)) (rb : ReqBody) (ct : 
           unfold caseWF at hw
           simp only [hdv, Bool.not_true, Bool.false_or, Bool.and_eq_true] at hn hw
           have hvis := visD_neutral exro s v hw.1 hw.2 hn
-          by_cases hu : dfltUnderNot s = true
-          · simp [hu] at hmod
-          · simp only [hu, Bool.false_eq_true, if_false]
-            cases hx : visD true exro s v with
-            | none =>
-              rw [hx] at hvis
-              simp only [Option.isSome_none] at hvis
-              simp [← hvis]
-            | some v' =>
-              rw [hx] at hvis
-              simp only [Option.isSome_some] at hvis
-              simp [← hvis]
+          cases hx : visD true exro s v with
+          | none =>
+            rw [hx] at hvis
+            simp only [Option.isSome_none] at hvis
+            simp [← hvis]
+          | some v' =>
+            rw [hx] at hvis
+            simp only [Option.isSome_some] at hvis
+            simp [← hvis]
 
 end KinModel.Body
